@@ -296,6 +296,29 @@ def gen_cases(tier, seed, search=False):
             rng = random.Random(s)
             lines, cmp_mode = gen_pingpong(rng) if fam == "pingpong" else gen_random(rng, fam)
             yield (f"{fam}-{s}", fam, lines, cmp_mode)
+    if not search:
+        # systematic schedule enumeration (vlib/sched.py) on a few small multi-thread scenarios; the schedules are found on the
+        # eventfd2 instantiation and then run, like every case, in all three transports
+        from . import sched
+        erng = random.Random(seed * 7919 + 909)
+        bases = [(c[0], instantiate(c[2], ""), c[2]) for c in corpus_cases()]
+        k = 0
+        while len(bases) < 40 and k < 2000:
+            k += 1
+            ls, _ = gen_random(erng, "threads")
+            if sum(1 for l in ls if l.startswith("thread")) >= 2 and len(ls) <= 26 and not any("70000" in l or "4200" in l for l in ls):
+                bases.append((f"gen{len(bases)}", instantiate(ls, ""), ls))
+        def mk(name, lines, base):
+            tok = next(t for t in lines[[i for i, l in enumerate(lines) if l.startswith("cfg")][0]].split() if t.startswith("sched="))
+            raw = list(base[2])
+            ci = [i for i, l in enumerate(raw) if l.startswith("cfg")]
+            if ci:
+                raw[ci[0]] = raw[ci[0]] + " " + tok
+            else:
+                raw.insert(0, "cfg {T} " + tok)
+            return (name, "enum", raw, "none")
+        yield from sched.enum_cases(PROP, HARNESS, bases, tier, os.path.join(common.BUILD, "sched-c09"), mk=mk,
+                                    want=2 if tier == "quick" else 6, budget=100 if tier == "quick" else 1500)
 
 
 def corpus_cases():
